@@ -1,6 +1,7 @@
 import LyModel.XsdRe.Lemmas
 import LyModel.XsdRe.RewriteLemmas
 import LyModel.XsdRe.BlockLemmas
+import LyModel.XsdRe.FuelLemmas
 import LyModel.XsdRe.Drv
 /-!
 # C18 — `pattern` restrictions implement XML Schema regular expressions
@@ -103,7 +104,7 @@ theorem rewrite_rejects_stray_bracket (fx : Fixes) (p : Bytes) :
     simp [this, h]
   · have hex := exists_neg_of_not_wellBracketed h
     have := escapeLoop_err fx p hex
-    simp only [this, h, not_false_eq_true, iff_true, true_and]
+    simp only [this, h, not_false_eq_true, true_and]
     intro e he
     cases he
     rfl
@@ -318,13 +319,27 @@ theorem ublock_rows_do_not_recreate_needle :
     ∀ row ∈ ublocks, findSub needle row.2 = Option.none ∧ row.2.head? ∈ [some bOpen] ∧ row.2.getLast? ∈ [some bClose] := by
   decide +kernel
 
--- OPEN: termination of the `while (strstr(perl_regex, "\\p{Is"))` loop, i.e. sufficiency of the fuel of `chblocks`:
---   theorem chblocks_fuel_sufficient (fx : Fixes) (t : Bytes) : chblocks fx t ≠ .error .fuel
--- Argument (not formalised): a round turns `pre ++ needle ++ name ++ "}" ++ post` (first occurrence at `pre.length`,
--- `findSub_some`) into `pre ++ repl ++ post`; by `ublock_rows_do_not_recreate_needle` (repl contains no needle, begins
--- with `[` or `\`, ends with `]`, `}` or `-`) no occurrence of the needle starts before `post`, so the number of
--- occurrences drops by at least one per round and `t.length + 1` rounds suffice.  The correspondence treats a model
--- reply `err Fuel` as a disagreement (the harness never produces it); none occurred.
+/-- **Termination of the substitution loop** (`while ((ptr = strstr(perl_regex, "\\p{Is")))`): on the table as it is in the
+    source now the model's fuel is sufficient for every input and every repair state — a round removes the first occurrence of
+    the needle and creates none before the unprocessed tail (`no_occ_before_tail`: every text a row can contribute contains no
+    needle, does not begin with `p { I s` and does not end with `\ p { I`), so the length of the text from the first
+    occurrence on strictly decreases (`mu_decreases`). -/
+theorem chblocks_terminates (fx : Fixes) (t : Bytes) : chblocks fx t ≠ .error .fuel :=
+  chblocks_fuel_sufficient fx t
+
+/-- the whole rewrite is total: its only outcomes are a text, one of the three diagnostics, or (code as it is) the crash -/
+theorem rewrite_never_out_of_fuel (fx : Fixes) (p : Bytes) : rewriteWith fx p ≠ .error .fuel := by
+  unfold rewriteWith
+  split
+  · rename_i e he
+    have := (rewrite_rejects_stray_bracket fx (cstr p)).2 e he
+    subst this
+    intro h; cases h
+  · exact chblocks_fuel_sufficient fx _
+
+-- non-vacuity: three block escapes, three rounds
+example : rewrite [92, 112, 123, 73, 115, 71, 114, 101, 101, 107, 125, 91, 92, 112, 123, 73, 115, 71, 114, 101, 101, 107, 125, 93,
+    92, 112, 123, 73, 115, 84, 104, 97, 105, 125] ≠ .error .fuel := by decide
 
 /-- Implicit anchoring at both ends, `$` only at the very end, Unicode semantics: the options the source passes to
     `pcre2_compile` / `pcre2_match` now, and none that would change the meaning of `.` `^` `$` or of letters. -/
